@@ -187,6 +187,13 @@ pub open spec fn decls_wf(t: &LuaDeclarationTree) -> bool {
         ==> t.decls@.contains_key(d) && did(&t.decls@[d]) == d
 }
 
+/// no `local` / assignment statement declares the name twice (`local a, a = 1, 2`)
+pub open spec fn no_dup_named(t: &LuaDeclarationTree, name: Seq<char>) -> bool {
+    forall|s: int, k1: int, k2: int, d1: LuaDeclId, d2: LuaDeclId| 0 <= s < t.scopes@.len() && kd(t.scopes@, s) == LuaScopeKind::LocalOrAssignStat
+        && #[trigger] is_decl_child(t.scopes@, s, k1, d1) && #[trigger] is_decl_child(t.scopes@, s, k2, d2) && d1 != d2
+        && t.decls@.contains_key(d1) && t.decls@.contains_key(d2) && dname(&t.decls@[d1]) == name ==> dname(&t.decls@[d2]) != name
+}
+
 impl LuaDeclarationTree {
     //@@ LuaDeclarationTree::find_local_decl
     //@@ LuaDeclarationTree::get_env_decls
